@@ -50,6 +50,10 @@ REAL_VS_STUB = {
 # pure function of the plan; the fresh-interpreter determinism test for this check therefore keeps the hash seed.
 HASHSEED_SENSITIVE = True
 
+FAULT_PROBES = {"runner_killed": "runner_killed", "output_file_torn": "output_torn", "interrupt_during_preparation": "interrupt_prepare",
+                "interrupt_during_submission": "interrupt_submit", "interrupt_while_waiting": "interrupt_wait", "interrupt_during_finalisation": "interrupt_finalise",
+                "command_fails_after_writing_return_file": "fail_after_writing_return_file", "cache_file_unreadable": "cache_unreadable",
+                "runners_overlapped": "runners_overlapped"}
 PROBES = ["cache_hit_valid", "cache_other_tag", "cache_failed_rc", "cache_success_flag_but_missing_file", "cache_unreadable", "destination_only_key",
           "item_already_in_destination", "vectorised_partly_cached", "runner_killed", "output_torn", "interrupt_prepare", "interrupt_submit",
           "interrupt_wait", "interrupt_finalise", "tag_changed_between_calls", "fail_after_writing_return_file", "closing_call_completed", "idempotent_call_checked", "runners_overlapped"]
